@@ -100,6 +100,14 @@ class NativeCodeGenerator(CodeGenerator):
         if finalize.src is not None:
             self.write(")")
 
+    def _call_block_result_pre(self, frame: Frame) -> None:
+        """The result of a call block is a node like any other output, it
+        keeps its type.
+        """
+
+    def _call_block_result_post(self, frame: Frame) -> None:
+        pass
+
 
 class NativeEnvironment(Environment):
     """An environment that renders templates to native Python types."""
